@@ -548,13 +548,16 @@ class Model(Object):
             metabolite_list = [metabolite_list]
         # Make sure metabolites exist in model
         metabolite_list = [x for x in metabolite_list if x.id in self.metabolites]
+        context = get_context(self)
         for x in metabolite_list:
             x._model = None
 
             # remove reference to the metabolite in all groups
             associated_groups = self.get_associated_groups(x)
             for group in associated_groups:
-                group.remove_members(x)
+                group.remove_members([x])
+                if context:
+                    context(partial(group.add_members, [x]))
 
             if not destructive:
                 for the_reaction in list(x._reaction):  # noqa W0212
@@ -570,7 +573,6 @@ class Model(Object):
         to_remove = [self.solver.constraints[m.id] for m in metabolite_list]
         self.remove_cons_vars(to_remove)
 
-        context = get_context(self)
         if context:
             context(partial(self.metabolites.__iadd__, metabolite_list))
             for x in metabolite_list:
@@ -842,11 +844,18 @@ class Model(Object):
                             self.genes.remove(gene)
                             if context:
                                 context(partial(self.genes.add, gene))
+                            # remove reference to the gene in all groups
+                            for group in self.get_associated_groups(gene):
+                                group.remove_members([gene])
+                                if context:
+                                    context(partial(group.add_members, [gene]))
 
                 # remove reference to the reaction in all groups
                 associated_groups = self.get_associated_groups(reaction)
                 for group in associated_groups:
-                    group.remove_members(reaction)
+                    group.remove_members([reaction])
+                    if context:
+                        context(partial(group.add_members, [reaction]))
 
     def add_groups(self, group_list: Union[str, Group, List[Group]]) -> None:
         """Add groups to the model.
